@@ -65,7 +65,7 @@ theorem C10_tlr_allow_is_senders (active : Bool) (bud : Int) (con : Bool) (est :
 start (serial-number comparison), whatever else is going on … -/
 theorem C10_tlr_finish (s : St) (p : Bool) (ha : s.tlrActive = true) :
     (tlrMaybeFinish s p).tlrActive = !sna32GTE s.cumAck s.tlrEndTSN := by
-  unfold tlrMaybeFinish tlrFinish_leavesFirst tlrFinish_done tlrFinish_clean tlrFinish_resetsBurst
+  unfold tlrMaybeFinish tlrEnd tlrScore tlrLeaveFirst tlrFinish_leavesFirst tlrFinish_done tlrFinish_clean tlrFinish_resetsBurst
   simp only [ha, Bool.not_true, Bool.false_eq_true, ↓reduceIte]
   split <;> split <;> simp_all
 
